@@ -25,11 +25,44 @@ func (x rngReader) Read(p []byte) (int, error) {
 
 var origRandReader io.Reader = crand.Reader
 
+// sortedMatcher wraps rulio's matcher (core.DefaultMatcher is an exported
+// variable) and returns its binding sets in a canonical order: the order in
+// which the sheens matcher yields alternatives follows Go's map iteration
+// order, which would otherwise leak into the order of action executions.
+type sortedMatcher struct{ inner core.Matcher }
+
+func (m sortedMatcher) Match(pattern, fact interface{}, bs core.Bindings) ([]core.Bindings, error) {
+	out, err := m.inner.Match(pattern, fact, bs)
+	if len(out) > 1 {
+		keys := make([]string, len(out))
+		for i, b := range out {
+			keys[i] = Canon(map[string]interface{}(b))
+		}
+		idx := make([]int, len(out))
+		for i := range idx {
+			idx[i] = i
+		}
+		sort.SliceStable(idx, func(a, b int) bool { return keys[idx[a]] < keys[idx[b]] })
+		sorted := make([]core.Bindings, len(out))
+		for i, j := range idx {
+			sorted[i] = out[j]
+		}
+		out = sorted
+	}
+	return out, err
+}
+
+var origMatcher core.Matcher
+
 // SeedProcess pins every process-wide randomness source rulio reads to the
 // run seed and silences rulio's logging.
 func SeedProcess(seed uint64) {
 	crand.Reader = rngReader{NewRng(seed ^ 0xa5a5a5a5)}
 	mrand.Seed(int64(seed))
+	if origMatcher == nil {
+		origMatcher = core.DefaultMatcher
+	}
+	core.DefaultMatcher = sortedMatcher{origMatcher}
 	core.DefaultVerbosity = core.NOTHING
 	core.DefaultLogger = core.BenchLogger
 }
